@@ -21,7 +21,7 @@ ASSERT_HOSTNAME = ["unset", False, "match", "other"]
 FINGERPRINT = ["unset", "sha256", "sha1", "md5", "wrong", "badlen", "sha256-colons-upper"]
 SERVER_HOSTNAME = ["unset", "right", "wrong"]
 CONTEXTS = ["none", "default-like", "no-check-hostname", "verify-none"]
-CA_SOURCE = ["ca_certs", "ca_cert_data", "none"]
+CA_SOURCE = ["ca_certs", "ca_cert_data", "none", "other_ca_certs", "other_ca_cert_data"]  # other_*: only the second CA is trusted
 LEAVES = ["exact", "wildcard", "ip4", "ip6", "cn-only", "other", "multi", "upper-wild"]
 HOSTS = ["good.test", "GOOD.TEST", "good.test.", "a.wild.test", "A.Wild.Test", "a.b.wild.test", "wild.test", "127.0.0.1", "[::1]", "[::1%25lo]", "other.test", "xn--bcher-kva.test"]
 ROUTES = ["direct", "direct", "http-tunnel"]
@@ -49,7 +49,7 @@ def demanded(point: dict[str, typing.Any], leaf: dict[str, typing.Any]) -> tuple
         det["conflict"] = True
     verdicts = []
     if mode != "CERT_NONE":
-        chain_ok = leaf["issuer"] == "trusted" and point["ca_source"] != "none"
+        chain_ok = (leaf["issuer"] == "trusted" and point["ca_source"] in ("ca_certs", "ca_cert_data")) or (leaf["issuer"] == "untrusted" and point["ca_source"] in ("other_ca_certs", "other_ca_cert_data"))
         det["chain_ok"] = chain_ok
         verdicts.append("pass" if chain_ok else "fail")
     pin = point["fingerprint"]
@@ -71,7 +71,7 @@ def demanded(point: dict[str, typing.Any], leaf: dict[str, typing.Any]) -> tuple
         det["name"] = name
         det["name_ref"] = ref
         verdicts.append({"accept": "pass", "reject": "fail", "either": "either"}[ref])
-    if point.get("route") == "https-tunnel" and mode != "CERT_NONE" and point["ca_source"] == "none":
+    if point.get("route") == "https-tunnel" and mode != "CERT_NONE" and point["ca_source"] not in ("ca_certs", "ca_cert_data"):
         # the TLS leg to the https proxy is verified with the same mode and CA settings and comes first
         det["proxy_leg"] = "fail"
         verdicts.append("fail")
@@ -127,6 +127,10 @@ def build_kwargs(point: dict[str, typing.Any], certs: tlsnet.Certs, leaf: dict[s
         kw["ca_certs"] = certs.ca_file
     elif point["ca_source"] == "ca_cert_data":
         kw["ca_cert_data"] = certs.ca_data
+    elif point["ca_source"] == "other_ca_certs":
+        kw["ca_certs"] = certs.other_ca_file
+    elif point["ca_source"] == "other_ca_cert_data":
+        kw["ca_cert_data"] = certs.other_ca_data
     return kw
 
 
@@ -260,7 +264,7 @@ def random_point(rng: typing.Any, pyopenssl: bool) -> dict[str, typing.Any]:
     host = rng.choice(related) if rng.random() < 0.7 else rng.choice(HOSTS)
     return {
         "cert_reqs": rng.choice(CERT_REQS + ["unset", "unset"]), "assert_hostname": rng.choice(ASSERT_HOSTNAME + ["unset", "unset"]), "fingerprint": rng.choice(FINGERPRINT + ["unset"] * 6),
-        "server_hostname": rng.choice(SERVER_HOSTNAME + ["unset", "unset"]), "ssl_context": rng.choice(CONTEXTS + ["none", "none"]), "ca_source": rng.choice(CA_SOURCE + ["ca_certs"] * (4 if pyopenssl else 1)),
+        "server_hostname": rng.choice(SERVER_HOSTNAME + ["unset", "unset"]), "ssl_context": rng.choice(CONTEXTS + ["none", "none"]), "ca_source": rng.choice(CA_SOURCE + ["ca_certs"] * (5 if pyopenssl else 2)),
         "issuer": rng.choice(["trusted", "trusted", "untrusted"]), "leaf": leaf, "host": host, "route": rng.choice(ROUTES + ([] if pyopenssl else ["https-tunnel"])), "pyopenssl": pyopenssl, "again": rng.random() < 0.3, "retry": rng.random() < 0.2,
     }
 
